@@ -372,7 +372,7 @@ def cause_of(text):
         return "string-escaped-quote"
     if echoed:
         return "string-lone-backslash"
-    if any(k == "ws" and v == "\r" for k, v, _, _ in toks):
+    if not smtlex.CR_WS and any(k == "ws" and v == "\r" for k, v, _, _ in toks):
         return "cr-not-whitespace"
     return None
 
@@ -407,13 +407,19 @@ def shrink(text_cmds, differs):
 
 def run(ctx):
     exe, log = vlib.build_extracted("pipe")
+    model = None
     if not exe:
+        # the model no longer builds (a proof obligation or the extraction broke): the property itself is still
+        # judged on the binary below (file vs pipe on valid scripts), only the model comparisons are skipped
         ctx.tie_broken("extraction-pipe", log)
-        return
-    model = Model(exe)
-    v = model.query([("(exit)", None, [], None)])[0]
-    esc, lbe = v["esc"] == "1", v["lbe"] == "1"
-    ctx.extra["model_variant"] = dict(scanner_has_string_escape=esc, lexer_echoes_lone_backslash=lbe)
+        esc, lbe, cr_ws = False, True, False
+    else:
+        model = Model(exe)
+        v = model.query([("(exit)", None, [], None)])[0]
+        esc, lbe = v["esc"] == "1", v["lbe"] == "1"
+        cr_ws = model.query([("\r(exit)", None, [], None)])[0]["valid"] == "1"
+    smtlex.LONE_BS_ECHO, smtlex.CR_WS = lbe, cr_ws
+    ctx.extra["model_variant"] = dict(scanner_has_string_escape=esc, lexer_echoes_lone_backslash=lbe, cr_is_white_space=cr_ws)
     if esc:
         ctx.note("pipe scanner has a string-escape state: pipe_eq_file_refuted is vacuous, pipe_eq_file needs no escaped-quote guard")
     if not lbe:
@@ -442,7 +448,7 @@ def run(ctx):
         cases.append(c)
 
     # pass 1: frames (oracle-free)
-    p1 = model.query([(c["text"], None, [], None) for c in cases])
+    p1 = model.query([(c["text"], None, [], None) for c in cases]) if model else [None] * len(cases)
     strace_budget = 6 if ctx.quick else 40
     n_unpred = 0
     for c, m1 in zip(cases, p1):
@@ -451,11 +457,11 @@ def run(ctx):
         chunkings = c.get("chunkings") or gen_chunkings(rng, n)
         cause = cause_of(text)
         # T3: the lexer model's command spans against the generator's
-        model_cmds = [unhx(h) for h in m1["cmds"].split(",")] if m1["cmds"] != "-" else []
-        if c.get("cmds") and cause in (None, "string-escaped-quote", "string-lone-backslash") and model_cmds != c["cmds"]:
+        model_cmds = ([unhx(h) for h in m1["cmds"].split(",")] if m1["cmds"] != "-" else []) if m1 else None
+        if m1 and c.get("cmds") and cause in (None, "string-escaped-quote", "string-lone-backslash") and model_cmds != c["cmds"]:
             ctx.tie_broken("lexer-model-command-spans", "file_commands differs from the generator's spans", dict(script_hex=hx(text)))
         # oracles for frames: parser verdict of the binary itself (file mode on the frame text)
-        frames = sorted({t for k, t in parse_events(m1["stream"]) if k in ("X", "K", "S")})
+        frames = sorted({t for k, t in parse_events(m1["stream"]) if k in ("X", "K", "S")}) if m1 else []
         bad, exs, unpred = [], [], None
         need_oracle = c["cat"] in ("escq", "poststop-invalid", "corpus") or not c["valid"]
         if need_oracle:
@@ -474,7 +480,7 @@ def run(ctx):
                         unpred = "lexer exit(1) in frame"
         rc_f, out_f, err_f = run_file(text)
         items = [(text, lens, bad, exs if need_oracle else None) for lens in chunkings]
-        ms = model.query(items)
+        ms = model.query(items) if model else [None] * len(items)
         pipe_outs = []
         for lens, m in zip(chunkings, ms):
             rc_p, out_p, err_p = run_pipe(text, lens)
@@ -482,11 +488,13 @@ def run(ctx):
             key = (text, tuple(lens))
             ctx.case(key=hx(text) + ":" + ",".join(map(str, lens)), nontrivial=nontrivial(text), kind=c["cat"],
                      sample=dict(category=c["cat"], script=text[:200], chunk_lengths=lens[:12], file=dict(rc=rc_f, out=out_f[:120]),
-                                 pipe=dict(rc=rc_p, out=out_p[:120]), model_reads=m["reads"][:60]))
+                                 pipe=dict(rc=rc_p, out=out_p[:120]), model_reads=m["reads"][:60] if m else None))
             if rc_p < 0 or rc_p > 1 or rc_f < 0 or rc_f > 1:
                 ctx.note("abnormal termination rc_file=%s rc_pipe=%s on %s (reported by C18)" % (rc_f, rc_p, hx(text)[:80]))
             # T1: model of the pipe reader against the binary
-            if unpred is None and cause not in ("cr-not-whitespace", "lexer-fatal"):
+            if m is None:
+                pass
+            elif unpred is None and cause not in ("cr-not-whitespace", "lexer-fatal"):
                 try:
                     rx, st = predict(parse_events(m["pipe"]))
                     if not re.fullmatch(rx, out_p, re.S) or st != rc_p:
@@ -499,7 +507,7 @@ def run(ctx):
             else:
                 ctx.count("model-comparison-skipped:" + (unpred or cause))
             # read sizes (sampled): the model's read_pieces against strace
-            if strace_budget > 0 and len(lens) > 1 and max(lens) > 15 and unpred is None:
+            if m is not None and strace_budget > 0 and len(lens) > 1 and max(lens) > 15 and unpred is None:
                 strace_budget -= 1
                 chunks, i = [], 0
                 for k in lens:
@@ -517,7 +525,7 @@ def run(ctx):
                         ctx.tie_broken("read-sizes-model-vs-strace", "chunks %s: model reads %s, strace saw %s" % (lens, exp, got),
                                        dict(script_hex=hx(text), chunk_lengths=lens))
         # T2: file mode model (valid scripts)
-        if c["valid"] and cause not in ("cr-not-whitespace", "lexer-fatal"):
+        if ms[0] is not None and c["valid"] and cause not in ("cr-not-whitespace", "lexer-fatal"):
             try:
                 rx, st = predict(parse_events(ms[0]["file"]))
                 if not re.fullmatch(rx, out_f, re.S) or st != rc_f:
